@@ -318,6 +318,10 @@ impl<'a> StepObs<'a> {
                 }
             }
             SetMode(list, p) | ResetMode(list, p) => {
+                let deccolm = list.iter().any(|m| if *p { *m == 3 } else { *m == 96 });
+                if deccolm && matches!(low, ResetMode(..)) && pre.columns == 132 && pre.saved_columns.is_some() {
+                    self.cov.hit("probe_deccolm_round_trip_restores_width");
+                }
                 for m in list {
                     let k = if *p { (*m as u64) << 5 } else { *m as u64 };
                     self.cov.set_insert("c12_mode_keys", k * 2 + matches!(low, SetMode(..)) as u64);
@@ -366,6 +370,15 @@ impl<'a> StepObs<'a> {
                 }
                 if pre.x == pre.columns {
                     self.cov.hit("probe_resize_with_pending_wrap_cursor");
+                }
+                if c2 < pre.columns && c2 >= 1 {
+                    use unicode_width::UnicodeWidthChar;
+                    let cut = (c2 - 1) as usize;
+                    if pre.grid.iter().any(|row| {
+                        row.get(cut).and_then(|c| c.data.chars().next()).map(|ch| ch.width() == Some(2)).unwrap_or(false)
+                    }) {
+                        self.cov.hit("probe_resize_cuts_a_wide_character");
+                    }
                 }
             }
             RestoreCursor => {
